@@ -21,7 +21,7 @@ FAM = ["task", "resource", "constraint", "buffer"]
 def solution_check(program, built, solver, prims, leaves, job):
     out = []
     dd = dsl.decl_by_id(program)
-    pa = program.get("pargs") or {}
+    pa = dsl.effective(program).get("pargs") or {}
     delta = datetime.timedelta(seconds=pa["delta_time"]["$td"]) if pa.get("delta_time") else None
     t0 = datetime.datetime(*pa["start_time"]["$dt"]) if pa.get("start_time") else None
     reported = set()
@@ -175,6 +175,13 @@ def jobs(tier):
                 continue
             out.append({"program": prog(H, decls, **cal), "families": FAM, "family": lab.split("/")[-1] if "/" in lab else lab,
                         "directions": "S", "post": "solution", "prim_opts": {"busy_prims": False}})
+        # the calendar assigned to the problem after the solver object was created (it is read when solutions are built)
+        if i % (6 if tier == "quick" else 2) == 0:
+            cal = cals[1 + i % (len(cals) - 1)]
+            p_ = prog(H, decls + [dsl.setattr_("$pb", k_, v_) for k_, v_ in cal.items()])
+            p_["early_solver"] = {"max_time": 30}
+            out.append({"program": p_, "families": FAM, "family": "calendar-assigned-after-the-solver", "directions": "S", "post": "solution",
+                        "prim_opts": {"busy_prims": False}})
         # free horizon
         if i % (4 if tier == "quick" else 1) == 0:
             out.append({"program": prog(None, decls, H=min(H, 3)), "families": FAM, "family": "free-horizon", "directions": "S", "post": "solution"})
